@@ -1,1 +1,58 @@
-fn main() { println!("hello"); }
+//! fstv - drives the real `fst` crate and records what it did (or replays what TLC
+//! generated).  It never decides a property: traces are validated by TLC against the
+//! TLA+ specification in /verif/spec.
+
+mod api;
+mod common;
+mod gen;
+mod ops;
+mod scen_api;
+mod taut;
+
+use common::*;
+use serde_json::json;
+
+fn main() {
+    let argv: Vec<String> = std::env::args().skip(1).collect();
+    let args = Args::parse(&argv);
+    if args.pos.is_empty() {
+        eprintln!("usage: fstv record <scenario> --seed N --tier quick|thorough --out FILE");
+        std::process::exit(2);
+    }
+    quiet_panics();
+    match args.pos[0].as_str() {
+        "record" => record(&args),
+        other => {
+            eprintln!("unknown command {}", other);
+            std::process::exit(2);
+        }
+    }
+}
+
+fn record(args: &Args) {
+    let scen = args.pos.get(1).cloned().unwrap_or_default();
+    let seed = args.num("seed", 1);
+    let tier = args.get("tier", "quick");
+    let out = args.get("out", "trace.ndjson");
+    match scen.as_str() {
+        "c01" | "c02" | "c03" | "c04" | "c05" | "c06" | "c16" => {
+            let mut s = api::Sess::new(&out);
+            match scen.as_str() {
+                "c01" => scen_api::c01(&mut s, seed, &tier),
+                "c02" => scen_api::c02(&mut s, seed, &tier),
+                "c03" => scen_api::c03(&mut s, seed, &tier),
+                "c04" => scen_api::c04(&mut s, seed, &tier),
+                "c05" => scen_api::c05(&mut s, seed, &tier),
+                "c06" => scen_api::c06(&mut s, seed, &tier),
+                _ => scen_api::c16(&mut s, seed, &tier),
+            }
+            let panics = s.panics;
+            let (n, counts) = s.log.finish();
+            println!("{}", json!({"scenario": scen, "events": n, "counts": counts, "panics": panics}));
+        }
+        other => {
+            eprintln!("unknown scenario {}", other);
+            std::process::exit(2);
+        }
+    }
+}
